@@ -11,6 +11,7 @@ CONSTANTS
   WakeAt = 3
   IgnoreUnknownIdx = TRUE
   UnlinkOnDeregister = FALSE
+  ResumeClearsBackoff = TRUE
   IncBeforeSend = FALSE
   NoClearOnLimit = FALSE
   ResumeSkipsAcceptAll = FALSE
